@@ -321,7 +321,7 @@ theorem runSteps_backup (d : Dir) (name bn : Name) (old new : List UInt8) (hold 
     (runSteps d [.rename name bn, .createTrunc name, .fill name new]).get k =
       if k = name then some new else if k = bn then some old else d.get k := by
   simp only [runSteps, List.foldl, Dir.step, Dir.get_rename _ _ _ _ _ hold, Dir.get_set]
-  by_cases h1 : k = name <;> by_cases h2 : k = bn <;> simp [h1, h2]
+  by_cases h1 : k = name <;> by_cases h2 : k = bn <;> simp [h1, h2, hbn]
 
 theorem runSteps_nobackup (d : Dir) (name : Name) (new : List UInt8) (k : Name) :
     (runSteps d [.createTrunc name, .fill name new]).get k = if k = name then some new else d.get k := by
@@ -354,5 +354,245 @@ theorem copyOnce_refused {d : Dir} {mode : BackupMode} {name : Name} (new : List
 theorem backup_target_absent {d : Dir} {name : Name} {N : Nat} (hN : nextBackupNum d.names name = some N) :
     d.get (backupName name N) = none :=
   (Dir.get_eq_none_iff d _).2 (nextBackupNum_fresh d.names name N hN)
+
+/-- with distinct keys, the entries of the list are exactly the `get` view -/
+theorem Dir.mem_iff_get (d : Dir) (h : d.names.Nodup) (k : Name) (v : List UInt8) :
+    (k, v) ∈ d ↔ d.get k = some v := by
+  induction d with
+  | nil => simp [Dir.get]
+  | cons kv r ih =>
+    obtain ⟨k', v'⟩ := kv
+    have hnd : k' ∉ Dir.names r ∧ (Dir.names r).Nodup := by
+      simpa [Dir.names, List.nodup_cons] using h
+    have ih := ih hnd.2
+    simp only [List.mem_cons, Prod.mk.injEq, Dir.get]
+    by_cases hk : k' = k
+    · subst hk
+      have : (k', v) ∉ r := by
+        intro hm
+        exact hnd.1 (List.mem_map.2 ⟨(k', v), hm, rfl⟩)
+      simp [this, eq_comm]
+    · have : ¬ k = k' := fun e => hk e.symm
+      simp [hk, this, ih]
+
+/-! ## History theorems -/
+
+/-- (H1) one copy never modifies, replaces or removes an entry other than its own target; in particular the
+backup name it renames to is fresh (`backup_target_absent`), so no existing `name.~m~` is overwritten. -/
+theorem copyOnce_preserves_others (d : Dir) (op : BackupMode × Name × List UInt8) (k : Name) (v : List UInt8)
+    (hk : d.get k = some v) (hne : k ≠ op.2.1) : (copyOnce d op).get k = some v := by
+  obtain ⟨mode, name, new⟩ := op
+  simp only at hne
+  cases hb : needsBackup mode (d.get name).isSome d.names name with
+  | false => rw [copyOnce_nobackup_get new hb]; simp [hne, hk]
+  | true =>
+    cases hN : nextBackupNum d.names name with
+    | none => rw [copyOnce_refused new hb hN]; exact hk
+    | some N =>
+      obtain ⟨old, hold⟩ := needsBackup_get hb
+      have hkb : k ≠ backupName name N := by
+        intro e; rw [e, backup_target_absent hN] at hk; cases hk
+      rw [copyOnce_backup_get new hb hN hold]; simp [hne, hkb, hk]
+
+/-- (H1, entry view) the same for list entries of a directory with distinct keys -/
+theorem copyOnce_preserves_other_entries (d : Dir) (hd : d.names.Nodup) (op : BackupMode × Name × List UInt8)
+    (k : Name) (v : List UInt8) (hk : (k, v) ∈ d) (hne : k ≠ op.2.1) : (k, v) ∈ copyOnce d op := by
+  rw [Dir.mem_iff_get _ (copyOnce_nodup d op hd)]
+  exact copyOnce_preserves_others d op k v ((Dir.mem_iff_get d hd k v).1 hk) hne
+
+/-- (H1, corollary) existing numbered backups of the target are never touched -/
+theorem copyOnce_backups_untouched (d : Dir) (mode : BackupMode) (name new : List UInt8) (m : Nat) (v : List UInt8)
+    (hk : d.get (backupName name m) = some v) : (copyOnce d (mode, name, new)).get (backupName name m) = some v :=
+  copyOnce_preserves_others d _ _ v hk (backupName_ne name m)
+
+/-- (H1, converse) nothing appears except under the target name and (when a backup is taken) the fresh backup name -/
+theorem copyOnce_get_elsewhere (d : Dir) (mode : BackupMode) (name new : List UInt8) (k : Name)
+    (hne : k ≠ name) (hnb : ∀ N, nextBackupNum d.names name = some N → k ≠ backupName name N) :
+    (copyOnce d (mode, name, new)).get k = d.get k := by
+  cases hb : needsBackup mode (d.get name).isSome d.names name with
+  | false => rw [copyOnce_nobackup_get new hb]; simp [hne]
+  | true =>
+    cases hN : nextBackupNum d.names name with
+    | none => rw [copyOnce_refused new hb hN]
+    | some N =>
+      obtain ⟨old, hold⟩ := needsBackup_get hb
+      rw [copyOnce_backup_get new hb hN hold]; simp [hne, hnb N hN]
+
+/-- (H2) numbered mode: the new content is installed, the old content survives under a backup name that did not
+exist before and whose number exceeds every backup number present before; everything else is unchanged. -/
+theorem copyOnce_numbered_keeps_old (d : Dir) (name old new : List UInt8) (N : Nat)
+    (hold : d.get name = some old) (hN : nextBackupNum d.names name = some N) :
+    (copyOnce d (.numbered, name, new)).get name = some new ∧
+    (copyOnce d (.numbered, name, new)).get (backupName name N) = some old ∧
+    d.get (backupName name N) = none ∧
+    (∀ c ∈ d.names, ∀ m, isNumBackup name c = some m → m < N) ∧
+    (∀ k, k ≠ name → k ≠ backupName name N → (copyOnce d (.numbered, name, new)).get k = d.get k) := by
+  have hb : needsBackup .numbered (d.get name).isSome d.names name = true := by simp [needsBackup, hold]
+  refine ⟨?_, ?_, backup_target_absent hN, nextBackupNum_greater d.names name N hN, ?_⟩
+  · rw [copyOnce_backup_get new hb hN hold]; simp
+  · rw [copyOnce_backup_get new hb hN hold]; simp [backupName_ne]
+  · intro k h1 h2; rw [copyOnce_backup_get new hb hN hold]; simp [h1, h2]
+
+/-- (H3) auto mode: a backup of the old content is taken iff a numbered backup of the target already exists;
+otherwise only the target changes. -/
+theorem copyOnce_auto_iff (d : Dir) (name old new : List UInt8) (N : Nat)
+    (hold : d.get name = some old) (hN : nextBackupNum d.names name = some N) :
+    ((copyOnce d (.auto, name, new)).get (backupName name N) = some old ↔ hasBackup d.names name = true) ∧
+    (copyOnce d (.auto, name, new)).get name = some new ∧
+    (hasBackup d.names name = false → ∀ k, k ≠ name → (copyOnce d (.auto, name, new)).get k = d.get k) := by
+  cases hh : hasBackup d.names name with
+  | true =>
+    have hb : needsBackup .auto (d.get name).isSome d.names name = true := by simp [needsBackup, hold, hh]
+    refine ⟨?_, ?_, ?_⟩
+    · rw [copyOnce_backup_get new hb hN hold]; simp [backupName_ne]
+    · rw [copyOnce_backup_get new hb hN hold]; simp
+    · intro h; cases h
+  | false =>
+    have hb : needsBackup .auto (d.get name).isSome d.names name = false := by simp [needsBackup, hh]
+    refine ⟨?_, ?_, ?_⟩
+    · rw [copyOnce_nobackup_get new hb]; simp [backupName_ne, backup_target_absent hN]
+    · rw [copyOnce_nobackup_get new hb]; simp
+    · intro _ k hk; rw [copyOnce_nobackup_get new hb]; simp [hk]
+
+theorem prefix_backupName (k : Name) (N : Nat) : k <+: backupName k N := by
+  unfold backupName
+  rw [List.append_assoc, List.append_assoc]
+  exact List.prefix_append _ _
+
+/-- (H4, one step) the fate of an entry `(k, v)` under one copy: it stays where it is unless `k` is the target;
+if `k` is the target and the mode asks for a backup, it moves to the fresh name `backupName k N`, or the copy is
+refused (overflow) and nothing changes. -/
+theorem copyOnce_entry_fate (d : Dir) (op : BackupMode × Name × List UInt8) (k : Name) (v : List UInt8)
+    (hk : d.get k = some v) :
+    (k ≠ op.2.1 → (copyOnce d op).get k = some v) ∧
+    (k = op.2.1 → needsBackup op.1 true d.names k = true →
+      (∀ N, nextBackupNum d.names k = some N →
+        d.get (backupName k N) = none ∧ (copyOnce d op).get (backupName k N) = some v) ∧
+      (nextBackupNum d.names k = none → copyOnce d op = d)) := by
+  refine ⟨copyOnce_preserves_others d op k v hk, ?_⟩
+  obtain ⟨mode, name, new⟩ := op
+  rintro rfl hb
+  have hb' : needsBackup mode (d.get k).isSome d.names k = true := by simpa [hk] using hb
+  refine ⟨fun N hN => ⟨backup_target_absent hN, ?_⟩, fun hN => copyOnce_refused new hb' hN⟩
+  rw [copyOnce_backup_get new hb' hN hk]; simp [backupName_ne]
+
+/-- (H4, one step, existential form) if the copy does not destroy `k` without backup, the content `v` survives
+under a name extending `k` -/
+theorem copyOnce_keeps_version (d : Dir) (op : BackupMode × Name × List UInt8) (k : Name) (v : List UInt8)
+    (hk : d.get k = some v) (hsafe : op.2.1 = k → needsBackup op.1 true d.names k = true) :
+    ∃ k', k <+: k' ∧ (copyOnce d op).get k' = some v := by
+  obtain ⟨h1, h2⟩ := copyOnce_entry_fate d op k v hk
+  by_cases hkn : k = op.2.1
+  · obtain ⟨h3, h4⟩ := h2 hkn (hsafe hkn.symm)
+    cases hN : nextBackupNum d.names k with
+    | none => exact ⟨k, List.prefix_refl k, by rw [h4 hN]; exact hk⟩
+    | some N => exact ⟨backupName k N, prefix_backupName k N, (h3 N hN).2⟩
+  · exact ⟨k, List.prefix_refl k, h1 hkn⟩
+
+theorem runHistory_cons (d : Dir) (op : BackupMode × Name × List UInt8) (h : List (BackupMode × Name × List UInt8)) :
+    runHistory d (op :: h) = runHistory (copyOnce d op) h := rfl
+
+theorem runHistory_append (d : Dir) (h₁ h₂ : List (BackupMode × Name × List UInt8)) :
+    runHistory d (h₁ ++ h₂) = runHistory (runHistory d h₁) h₂ := by
+  simp [runHistory, List.foldl_append]
+
+/-- (H4a) an entry whose name is never the target of an operation survives any history unchanged -/
+theorem runHistory_preserves_untargeted (h : List (BackupMode × Name × List UInt8)) (d : Dir) (k : Name)
+    (v : List UInt8) (hk : d.get k = some v) (hne : ∀ op ∈ h, op.2.1 ≠ k) : (runHistory d h).get k = some v := by
+  induction h generalizing d with
+  | nil => exact hk
+  | cons op h ih =>
+    rw [runHistory_cons]
+    refine ih _ (copyOnce_preserves_others d op k v hk ?_) (fun o ho => hne o (List.mem_cons_of_mem _ ho))
+    exact fun e => hne op (List.mem_cons_self) e.symm
+
+/-- (H4b) a version overwritten by an operation that takes a backup (`.numbered`, or `.auto` with an existing backup)
+is kept under the backup name through the whole rest of the history, as long as no later operation targets
+that backup name itself. `rest` is arbitrary, so this speaks about every later directory. -/
+theorem runHistory_version_kept (pre rest : List (BackupMode × Name × List UInt8)) (d : Dir) (mode : BackupMode)
+    (name new c : List UInt8) (N : Nat)
+    (hc : (runHistory d pre).get name = some c)
+    (hb : needsBackup mode true (runHistory d pre).names name = true)
+    (hN : nextBackupNum (runHistory d pre).names name = some N)
+    (hrest : ∀ op ∈ rest, op.2.1 ≠ backupName name N) :
+    (runHistory d pre).get (backupName name N) = none ∧
+    (runHistory d (pre ++ (mode, name, new) :: rest)).get (backupName name N) = some c := by
+  refine ⟨backup_target_absent hN, ?_⟩
+  rw [runHistory_append, runHistory_cons]
+  refine runHistory_preserves_untargeted rest _ _ c ?_ hrest
+  exact ((copyOnce_entry_fate _ (mode, name, new) name c hc).2 rfl hb).1 N hN |>.2
+
+/-- (H4) histories never lose a version:
+(a) entries never targeted are unchanged;
+(b) whenever, after some prefix of the history, `name` holds `c` and the next operation overwrites `name` in numbered
+mode without overflow, then `c` is found under the (until then absent) name `backupName name N` after every
+continuation `rest` that does not target that backup name. -/
+theorem history_never_loses (d : Dir) (h : List (BackupMode × Name × List UInt8)) :
+    (∀ k v, d.get k = some v → (∀ op ∈ h, op.2.1 ≠ k) → (runHistory d h).get k = some v) ∧
+    (∀ pre rest name new c N, h = pre ++ (BackupMode.numbered, name, new) :: rest →
+      (runHistory d pre).get name = some c →
+      nextBackupNum (runHistory d pre).names name = some N →
+      (∀ op ∈ rest, op.2.1 ≠ backupName name N) →
+      (runHistory d pre).get (backupName name N) = none ∧
+      (runHistory d h).get (backupName name N) = some c ∧
+      (∀ k ∈ (runHistory d pre).names, ∀ m, isNumBackup name k = some m → m < N)) := by
+  refine ⟨fun k v hk hne => runHistory_preserves_untargeted h d k v hk hne, ?_⟩
+  rintro pre rest name new c N rfl hc hN hrest
+  obtain ⟨h1, h2⟩ := runHistory_version_kept pre rest d .numbered name new c N hc rfl hN hrest
+  exact ⟨h1, h2, nextBackupNum_greater _ name N hN⟩
+
+/-- (H4c) a history of numbered-mode copies never loses any content at all: whatever was stored under `k` is still
+stored, under a name that extends `k` (by backup suffixes), after the whole history (overflowing copies are refused
+and change nothing). -/
+theorem runHistory_numbered_never_loses (h : List (BackupMode × Name × List UInt8)) (d : Dir)
+    (hall : ∀ op ∈ h, op.1 = BackupMode.numbered) (k : Name) (v : List UInt8) (hk : d.get k = some v) :
+    ∃ k', k <+: k' ∧ (runHistory d h).get k' = some v := by
+  induction h generalizing d k with
+  | nil => exact ⟨k, List.prefix_refl k, hk⟩
+  | cons op h ih =>
+    have hop : op.1 = BackupMode.numbered := hall op List.mem_cons_self
+    obtain ⟨k₁, hp₁, hk₁⟩ := copyOnce_keeps_version d op k v hk (by intro _; rw [hop]; rfl)
+    obtain ⟨k₂, hp₂, hk₂⟩ := ih (copyOnce d op) (fun o ho => hall o (List.mem_cons_of_mem _ ho)) k₁ hk₁
+    exact ⟨k₂, List.IsPrefix.trans hp₁ hp₂, hk₂⟩
+
+/-! ## Kill safety -/
+
+theorem runSteps_nobackup_take (d : Dir) (name : Name) (new : List UInt8) (i : Nat) (k : Name) (hk : k ≠ name) :
+    (runSteps d (List.take i [.createTrunc name, .fill name new])).get k = d.get k := by
+  rcases i with _ | _ | i <;> simp [runSteps, Dir.step, Dir.get_set, hk]
+
+/-- (H5) every kill point of one overwrite: `l.take i` are the steps performed before the kill.
+When the mode requires a backup the old content exists, at every kill point, under the original name or under the
+(fresh) backup name; in every mode all other existing entries are untouched at every kill point; and running all
+steps is `copyOnce`. -/
+theorem kill_safe (d : Dir) (mode : BackupMode) (name old new : List UInt8) (l : List BStep)
+    (hold : d.get name = some old) (hl : copySteps d mode name new = some l) (i : Nat) :
+    (needsBackup mode true d.names name = true →
+      ∃ N, nextBackupNum d.names name = some N ∧ d.get (backupName name N) = none ∧
+        ((runSteps d (l.take i)).get name = some old ∨
+         (runSteps d (l.take i)).get (backupName name N) = some old)) ∧
+    (∀ k v, k ≠ name → d.get k = some v → (runSteps d (l.take i)).get k = some v) ∧
+    (l.length ≤ i → runSteps d (l.take i) = copyOnce d (mode, name, new)) := by
+  have hend : l.length ≤ i → runSteps d (l.take i) = copyOnce d (mode, name, new) := by
+    intro hi; rw [List.take_of_length_le hi]; simp [copyOnce, hl]
+  cases hb : needsBackup mode (d.get name).isSome d.names name with
+  | false =>
+    rw [copySteps_nobackup new hb] at hl
+    cases hl
+    refine ⟨?_, ?_, hend⟩
+    · intro h; simp [hold, h] at hb
+    · intro k v hk hv; rw [runSteps_nobackup_take d name new i k hk]; exact hv
+  | true =>
+    cases hN : nextBackupNum d.names name with
+    | none => rw [copySteps_refused new hb hN] at hl; cases hl
+    | some N =>
+      rw [copySteps_backup new hb hN] at hl
+      cases hl
+      obtain ⟨h1, h2⟩ := runSteps_backup_take d name (backupName name N) old new hold (backupName_ne name N) i
+      refine ⟨fun _ => ⟨N, rfl, backup_target_absent hN, h1⟩, ?_, hend⟩
+      intro k v hk hv
+      have hkb : k ≠ backupName name N := by
+        intro e; rw [e, backup_target_absent hN] at hv; cases hv
+      rw [h2 k hk hkb]; exact hv
 
 end Xcp
